@@ -2,7 +2,7 @@
 # multi_seed.sh "<seeds>" [ids...] — false-alarm hunt: every check, several VERIF_SEED values, unchanged tree, evidence untouched
 seeds=${1:-"1 2 3"}; shift
 ids=${*:-"C03 C04 C05 C06 C07 C08 C11 C14 C18 C19 C20"}
-cd /verif
+cd "$(dirname "${BASH_SOURCE[0]}")/.."
 for sd in $seeds; do
 	for id in $ids; do
 		out=$(VERIF_SEED=$sd bash scripts/check.sh $id quick --no-evidence 2>/dev/null); st=$?
